@@ -439,7 +439,7 @@ type ConcCfg struct {
 	// IterClosures: a call that is not explored inline and receives a function literal (e.g. record.Attrs(func…))
 	// is modelled as invoking that literal 0..MaxIter times in sequence (stopping early when it returns false).
 	IterClosures bool
-	depth []int // one element per helper frame the explorer is currently in (maintained by ConcPaths)
+	depth        []int // one element per helper frame the explorer is currently in (maintained by ConcPaths)
 	// Prune drops, on entering a block, the facts about registers of the current function that can no longer
 	// influence anything (no use reachable from that block, not an operand of or alias target of such a register).
 	// Paths that differ only in such dead facts then coincide, which keeps large functions tractable.
@@ -1384,7 +1384,6 @@ func pruneDead(st *ConcState, to *ssa.BasicBlock, active map[*ssa.Function]bool)
 	}
 }
 
-
 // ---------------------------------------------------------------------------
 // Package-level constant tables: a map or array variable that is built once (in
 // the package initialiser, from a composite literal with constant keys) and
@@ -1563,7 +1562,6 @@ func ConstTableInt(g *ssa.Global, k int64) (int64, bool) {
 	return 0, false
 }
 
-
 // addrKey names the memory location addr denotes on this path: the object it is rooted in (an allocation, a
 // parameter, a global - registers are resolved through what they stand for on the path) plus the field path.
 func addrKey(st *ConcState, addr ssa.Value) string {
@@ -1608,7 +1606,6 @@ func baseKey(st *ConcState, v ssa.Value) string {
 	k := addrKey(st, v)
 	return strings.TrimSuffix(k, ".")
 }
-
 
 // FieldOf reports what field `field` of the struct that obj denotes (an allocation, or a load of one) holds on this
 // path: an evident integer/boolean, or the value last stored (nil if nothing is known).
